@@ -331,3 +331,15 @@ unit("C17", "nondestructive.keeps_pixel_all_detector_types")(_C02.empty_all_type
 from . import C15 as _C15  # noqa: E402
 unit("C17", "step.conversion_exact")(_C15.qe_unit)
 unit("C17", "step.collection_exact")(_C15.collection)
+
+
+
+def _photon_setter(u: Unit):
+    """C13's Photon.array setter unit (imported late): the flux a model stores in the photon bucket is treated the same way at EVERY readout
+    step -- negative values never stay stored, whatever the container went through before (its flags are arbitrary in the pre-state) -- so
+    the charge collected over a partition of an interval does not depend on which step comes first."""
+    from . import C13 as _C13
+    return _C13.PHOTON_SETTER_UNIT(u)
+
+
+unit("C17", "photon.setter")(_photon_setter)
